@@ -26,3 +26,13 @@ register('C03', 'model_checking',
          "glue layer is concrete enumeration; adaptive solvers (scipy solve_ivp/ode, diffrax) are NOT claimed: there is "
          "nothing to encode within reach (DESIGN.md section 9)",
          "symbolic execution of the real solver kernels with uninterpreted vector field (symx + z3)", "7/C03")
+register('C04', 'translation_validation',
+         "Generated circuits (1-2 node types, 1..N structurally identical nodes, dense/sparse/diagonal/ring/fan-in/"
+         "cross-type weight patterns, equal or distinct per-node parameters, edge templates) are compiled with "
+         "vectorize=True and vectorize=False; for each setting z3 proves per frontend state variable that the emitted "
+         "derivative equals the reference semantics for all states, parameters and weights, so the two settings are "
+         "the same function. Per-node symbols are bound by value fingerprint, so a permutation inside a merged vector "
+         "is a disequality.",
+         "reals for floats; nodes per type <= 3/5; trajectories follow from equality of the vector field together with "
+         "C03's kernel result (no separate trajectory obligations); delays are handled under C09/C11",
+         "SMT translation validation of emitted code, vectorize on vs off (symx + z3)", "7/C04")
